@@ -73,3 +73,14 @@ struct NoDefaults {
     2: optional string b,
     3: required bool c,
 }
+
+// escape sequences inside default literals (the parser accepts \' \" \n \\): the value, not the spelling, is the default
+struct Escapes {
+    1: string two_lines = "line1\nline2",
+    2: string quoted = "say \"hi\"",
+    3: string back = "C:\\temp",
+    4: optional string single = 'it\'s',
+    5: optional binary raw = "a\\b\nc",
+    6: list<string> many = ["x\ny", "p\\q"],
+    7: optional i32 plain,
+}
